@@ -48,12 +48,17 @@ func (s *Stream) Send(msg any) error {
 	return err
 }
 
+// maxConsecutiveEmptyReads is the number of consecutive reads returning no data and no
+// error after which Recv gives up with io.ErrNoProgress (same bound as package bufio).
+const maxConsecutiveEmptyReads = 100
+
 // Recv reads the next TTLV binary payload from the inner stream, then deserialize it into the value pointed
 // by `msg`. Note that `msg` must be a pointer.
 func (s *Stream) Recv(msg any) error {
 	read := 0
 	buf := make([]byte, 512)
 	need := 8
+	empty := 0
 	for {
 		if need > cap(buf) {
 			buf = slices.Grow(buf, need-cap(buf))
@@ -65,11 +70,14 @@ func (s *Stream) Recv(msg any) error {
 			if err != nil {
 				return err
 			}
-			if read == 0 {
-				return io.ErrUnexpectedEOF
+			// io.Reader: 0 bytes and a nil error mean that nothing happened, not that the
+			// stream has ended. Read again; give up after too many empty reads in a row.
+			if empty++; empty >= maxConsecutiveEmptyReads {
+				return io.ErrNoProgress
 			}
-			return io.EOF
+			continue
 		}
+		empty = 0
 		read += n
 		need = computeNeededBytes(buf[:read])
 		if s.max > 0 && need > s.max {
